@@ -76,7 +76,7 @@ Print Assumptions C09_truncated_stream_is_never_complete.
    short reads, job count, Read lengths), no Read reports end of stream, the bytes handed out are a prefix of the
    data, and once the error has been reported it stays.  Checksums of the code (XXHash32/64). *)
 Theorem C09_truncated_stream_end_to_end : forall (evalid tvalid : N -> bool) c jr hr (data : list N) (ns : list N) nframes rbuf sched (k : nat),
-  cfg_ok evalid tvalid c -> h_bsize c <= 8388608 -> bytes_ok data -> (length data < nframes)%nat -> 0 < jr -> 0 < rbuf -> rbuf mod 8 = 0 ->
+  cfg_ok evalid tvalid c -> bytes_ok data -> (length data < nframes)%nat -> 0 < jr -> 0 < rbuf -> rbuf mod 8 = 0 ->
   let B := h_bsize c in let hash := block_hash (h_ck c) in
   let stream := write_stream hash c (chunks B data) in
   (k < length stream)%nat ->
